@@ -208,6 +208,7 @@ func c05Body(c *ev.Ctx) {
 		}
 	}
 	runCases(r, "compiled Poseidon R1CS over F_47: all pairs, complete search (output set must be exactly the reference)", cases, c05Eval)
+	runPairIsolation(c, c05Pairs())
 	r.finish("C05")
 	c.Set("rule", "cases = (inputs, presented output); BN254: ordered pairs and singletons of the field alphabet vs iden3 poseidon.Hash; call sequences of <=3 gadget calls sharing variables; small primes: all pairs vs a textbook Poseidon (4 full, RP partial with S-box on element 0, 4 full); presented output = reference (accept) or reference+1 (reject); non-trivial = accept cases")
 	c.Assume("'all field elements' on BN254 is checked on the alphabet (boundaries, all byte lengths, powers of two in thorough, 2 seeded values), not proved as a polynomial identity")
